@@ -550,18 +550,18 @@ enum cc_stat cc_tsttable_iter_next (CC_TSTTableIter *iter, CC_TSTTableEntry **ou
             error = 1;
         }
 
-        if (error) {
-            iter->next_node     = NULL;
-            iter->current_node  = NULL;
-            iter->previous_node = NULL;
-            return CC_ITER_END;
-
-        } else if (node->eow && previous_node == node->parent) {
+        if (node->eow && previous_node == node->parent) {
             *out                = node->data;
             iter->current_node  = node;
             iter->next_node     = next_node;
             iter->previous_node = previous_node;
             return CC_OK;
+
+        } else if (error) {
+            iter->next_node     = NULL;
+            iter->current_node  = NULL;
+            iter->previous_node = NULL;
+            return CC_ITER_END;
         }
 
         previous_node = node;
